@@ -382,7 +382,9 @@ def run(ctx):
         for _ in range(150 if ctx.quick else 4000):
             ms, ents = presentation_case(rnd)
             acts = [("x" if rnd.random() < 0.85 else rnd.choice(["-", "c", "r5"])) for _e in ents]
-            pmeta.append((rnd.choice(T.KINDS), rnd.choice(["eod", "eod", "eof", "plain"]), T.archive(ms), ents, acts))
+            # "default": the reader is left with the policy lha_reader_new gives it, documented as END_OF_DIR
+            # (lib/public/lha_reader.h: "This is the default policy"); the driver sets no policy for that word
+            pmeta.append((rnd.choice(T.KINDS), rnd.choice(["eod", "eod", "eof", "plain", "default"]), T.archive(ms), ents, acts))
         # the expected sequence needs to know which extracts succeed: a run under the plain policy (nothing is re-presented
         # there, the results of the extracts are the same) tells
         res_lines = [T.case(k_, "plain", arc_, sum([["n"] + ([a_] if a_ != "-" else []) for a_ in acts], []))
@@ -405,7 +407,7 @@ def run(ctx):
                     j += 1
                 else:
                     results.append(False)
-            seq, tail_dirs, links = expected_presentation(pol, ents, acts, results)
+            seq, tail_dirs, links = expected_presentation("eod" if pol == "default" else pol, ents, acts, results)
             ops = []
             for what, v in seq:
                 ops.append("n")
@@ -531,7 +533,7 @@ def run(ctx):
                        "header sequence, same full-read result, same check verdict per member; after the end every request "
                        "reports end.  2b. extract-everything runs, repeated with reads/checks added on every entry the reader "
                        "re-presents (fake directory, deferred link) and after the end: those requests return 0, every other result "
-                       "and the extracted tree are unchanged.  2c. archives with 2-4 dangerous links of different path lengths, each extracted under its own or a caller-supplied name: the re-presented links come after everything else in non-increasing ARCHIVE path length (direct oracle on the C) and as the model says.  2d. archives of directories whose names are prefixes of one another's (d/ d2/ da/, d/e/ d/e2/), files inside and outside them and dangerous links, extracted with some entries skipped / checked / read: the sequence handed out by next_file must be the one the interface description gives (eod: an extracted directory right before the first later entry whose path does not start with its path, else at the end; eof: all at the end; plain: never; deferred links after every directory, longest archive path first; then the end, three times) -- computed by the harness without the model; archives with an unreadable header between two members: once next_file has returned NULL no later call returns an entry (checked on every output of families 1, 2, 2d too).  3. two readers: interleaved by a random schedule in one thread and concurrently on two "
+                       "and the extracted tree are unchanged.  2c. archives with 2-4 dangerous links of different path lengths, each extracted under its own or a caller-supplied name: the re-presented links come after everything else in non-increasing ARCHIVE path length (direct oracle on the C) and as the model says.  2d. archives of directories whose names are prefixes of one another's (d/ d2/ da/, d/e/ d/e2/), files inside and outside them and dangerous links, extracted with some entries skipped / checked / read: the sequence handed out by next_file must be the one the interface description gives (eod, and a reader whose policy was never set -- the documented default is END_OF_DIR --: an extracted directory right before the first later entry whose path does not start with its path, else at the end; eof: all at the end; plain: never; deferred links after every directory, longest archive path first; then the end, three times) -- computed by the harness without the model; archives with an unreadable header between two members: once next_file has returned NULL no later call returns an entry (checked on every output of families 1, 2, 2d too).  3. two readers: interleaved by a random schedule in one thread and concurrently on two "
                        "threads (ThreadSanitizer build; a data race report is a failure) = the two separate runs.  non-trivial "
                        "= archive with at least two entries in the metamorphic family" % (3 if ctx.quick else 4, len(seqs), n_ex),
                "distribution": dict(dist), "samples": [lines[0][:300], mlines[0][:300] if mlines else "", two[0][1][:300]]}
